@@ -328,7 +328,6 @@ func retResult(ret *ssa.Return, i int) ssa.Value {
 	return v
 }
 
-
 // resultVia: control leaves block b and follows unconditional jumps to a return; the idx-th result of that return
 // (idx < 0: the last), with the φs met on the way resolved by the edge taken. nil when the way forks before a return.
 func resultVia(b *ssa.BasicBlock, idx int) (ssa.Value, *ssa.Return) {
